@@ -19,8 +19,12 @@ package main
 // foreign "<field or type>.Method" (e.g. "TLSConn.Conn.Write", "net.Conn.Write"), function
 // values "(value) name"; "?..." = receiver type unknown.
 //
-// Event kinds: "r" "w" (field read / write, incl. element stores, delete, copy into, ++),
-// "addr" (&x.f, may be written through the pointer), "call", "go" (go statement),
+// Event kinds: "r" (the field is indexed, ranged over, measured, dereferenced, the receiver of
+// a call or the path to a sub-field), "val" (its value is handed on: assigned, passed, returned,
+// compared - for a map, slice or pointer this creates an alias), "w" (element store, ++, op=,
+// copy into, close), "set" (the whole field is assigned), "del" (delete / clear; on a local map
+// the name is "local Func.var"), "addr" (&x.f, may be written through the pointer), "call",
+// "go" (go statement),
 // "atomic" (sync/atomic operation; name = the field; details in [atomics]), "wait"
 // (sync.Cond.Wait: the lock is released and re-acquired inside the region).
 
@@ -59,8 +63,19 @@ type atomicOp struct {
 }
 
 func accKind(acc string) string {
-	if acc == "" {
+	switch acc {
+	case "":
+		return "val"
+	case "use":
 		return "r"
+	}
+	return acc
+}
+
+// orUse: a location path keeps its write kind, a read becomes a non-escaping read.
+func orUse(acc string) string {
+	if acc == "" {
+		return "use"
 	}
 	return acc
 }
@@ -110,8 +125,11 @@ func (w *walker) atomSelector(x *ast.SelectorExpr, acc string) string {
 	case key == "" && w.typeOf(x.X) == nil:
 		w.aerrf(x.Pos(), "cannot resolve the type of %s: access of .%s not attributed", types.ExprString(x.X), x.Sel.Name)
 	}
-	if acc == "" {
-		return ""
+	if acc == "" || acc == "use" {
+		return "use" // the enclosing value is only traversed
+	}
+	if acc == "set" || acc == "del" {
+		acc = "w" // part of the enclosing value is written
 	}
 	switch b := unparen(x.X).(type) {
 	case *ast.SelectorExpr:
@@ -120,7 +138,7 @@ func (w *walker) atomSelector(x *ast.SelectorExpr, acc string) string {
 			return acc
 		}
 		if _, ptr := unparen(t).(*ast.StarExpr); ptr {
-			return ""
+			return "use"
 		}
 		switch u := w.p.under(t).(type) {
 		case *ast.StructType:
@@ -130,11 +148,25 @@ func (w *walker) atomSelector(x *ast.SelectorExpr, acc string) string {
 				return acc
 			}
 		}
-		return ""
+		return "use"
 	case *ast.CallExpr:
-		return ""
+		return "use"
 	}
 	return acc
+}
+
+// atomDeleteOperand: delete / clear on something that is not a struct field (a local map,
+// possibly an alias of a field's map) is recorded under the name of the local.
+func (w *walker) atomDeleteOperand(a ast.Expr) {
+	switch x := unparen(a).(type) {
+	case *ast.SelectorExpr:
+	case *ast.Ident:
+		if _, local := w.sc.lookup(x.Name); local {
+			w.atom(a.Pos(), "del", "local "+w.n.fname+"."+x.Name)
+		}
+	default:
+		w.atom(a.Pos(), "del", "?"+types.ExprString(a))
+	}
 }
 
 var atomicFn = regexp.MustCompile(`^(Load|Store|Add|Swap|CompareAndSwap|And|Or)(Int32|Int64|Uint32|Uint64|Uintptr|Pointer)$`)
@@ -233,13 +265,24 @@ func exprStrings(es []ast.Expr) []string {
 	return r
 }
 
-func (w *walker) mutatingBuiltin(fun ast.Expr) bool {
+// builtinAccess: how a builtin treats its first argument ("" = like any other operand).
+func (w *walker) builtinAccess(fun ast.Expr) string {
 	id, ok := unparen(fun).(*ast.Ident)
-	if !ok || !(id.Name == "delete" || id.Name == "copy" || id.Name == "clear" || id.Name == "close") {
-		return false
+	if !ok {
+		return ""
 	}
-	_, local := w.sc.lookup(id.Name)
-	return !local && !w.p.pkgNames[id.Name]
+	if _, local := w.sc.lookup(id.Name); local || w.p.pkgNames[id.Name] {
+		return ""
+	}
+	switch id.Name {
+	case "delete", "clear":
+		return "del"
+	case "copy", "close":
+		return "w"
+	case "len", "cap":
+		return "use"
+	}
+	return ""
 }
 
 var pureBuiltin = set{"len": true, "cap": true, "make": true, "new": true, "min": true, "max": true, "real": true, "imag": true, "complex": true}
@@ -944,7 +987,7 @@ func lines(items []string) string {
 func atomicityV(pkgs []*pkg) string {
 	var b strings.Builder
 	b.WriteString(coqHeader)
-	var regions, outside, all, entries, atomics, pools, caps, gocount, errs, pvars []string
+	var regions, outside, all, entries, atomics, pools, caps, gocount, errs, pvars, graph, heldCalls, nodeLocks []string
 	for _, p := range pkgs {
 		var vnames []string
 		for name := range p.pkgVars {
@@ -1046,9 +1089,38 @@ func atomicityV(pkgs []*pkg) string {
 			}
 		}
 		for _, n := range p.order { // live nodes, specialisations included
+			key := p.name + "." + n.key
 			if len(n.entry) > 0 {
-				entries = append(entries, "("+coqStr(p.name+"."+n.key)+", "+coqStrList(n.entry.list())+")")
+				entries = append(entries, "("+coqStr(key)+", "+coqStrList(n.entry.list())+")")
 			}
+			callees, locks, hc := set{}, set{}, set{}
+			for _, e := range n.events {
+				switch e.kind {
+				case evAcq:
+					locks[e.name] = true
+				case evCall:
+					if e.async {
+						continue // the spawner does not wait for the goroutine
+					}
+					held := e.may
+					if e.addEntry {
+						held = union(held, n.entry)
+					}
+					for _, t := range e.targets {
+						callees[p.name+"."+t.key] = true
+						for l := range held {
+							hc["("+coqStr(key)+", "+coqStr(l)+", "+coqStr(p.name+"."+t.key)+")"] = true
+						}
+					}
+				}
+			}
+			if len(callees) > 0 {
+				graph = append(graph, "("+coqStr(key)+", "+coqStrList(callees.list())+")")
+			}
+			if len(locks) > 0 {
+				nodeLocks = append(nodeLocks, "("+coqStr(key)+", "+coqStrList(locks.list())+")")
+			}
+			heldCalls = append(heldCalls, hc.list()...)
 		}
 		for _, e := range p.errors {
 			errs = append(errs, p.name+": "+e)
@@ -1065,7 +1137,7 @@ func atomicityV(pkgs []*pkg) string {
 	}
 	sort.Strings(es)
 	sort.Strings(entries)
-	b.WriteString("(* event = (kind, name); kinds: r w addr call go atomic wait - see tools/lockscan/atom.go *)\n")
+	b.WriteString("(* event = (kind, name); kinds: r val w set del addr call go atomic wait - see tools/lockscan/atom.go *)\n")
 	b.WriteString("(* critical sections: (function, mutex, mode, index of the Lock site in the function, events inside, in program order) *)\n")
 	b.WriteString("Definition regions : list (string * string * string * nat * list (string * string)) := " + lines(regions) + ".\n")
 	b.WriteString("(* events of each function that happen with no lock taken in that function *)\n")
@@ -1074,6 +1146,12 @@ func atomicityV(pkgs []*pkg) string {
 	b.WriteString("Definition fn_events : list (string * list (string * string)) := " + lines(all) + ".\n")
 	b.WriteString("(* locks certainly held whenever the function (or its bool specialisation) is entered *)\n")
 	b.WriteString("Definition fn_entry : list (string * list string) := " + lines(entries) + ".\n")
+	b.WriteString("(* in-package call graph over the functions and their bool specialisations (\"F[p=true]\"): callees\n   that run before the caller continues (calls, deferred calls, callbacks and function values; not go\n   statements); interface receivers are resolved to every in-package implementer *)\n")
+	b.WriteString("Definition call_graph : list (string * list string) := " + lines(graph) + ".\n")
+	b.WriteString("(* (caller, mutex, callee): the mutex may be held by the caller (taken in it, or held at its entry) while the callee runs *)\n")
+	b.WriteString("Definition held_calls : list (string * string * string) := " + lines(heldCalls) + ".\n")
+	b.WriteString("(* the mutexes each function (specialisation) acquires itself *)\n")
+	b.WriteString("Definition node_locks : list (string * list string) := " + lines(nodeLocks) + ".\n")
 	b.WriteString("(* sync/atomic operations: (field, function, operation, the other arguments as written) *)\n")
 	b.WriteString("Definition atomics : list (string * string * string * list string) := " + lines(atomics) + ".\n")
 	b.WriteString("(* sync.Pool.Put: (function, pool, object, direct/deferred, mentions of the object after the Put) *)\n")
